@@ -65,15 +65,15 @@ theorem Inv.nonempty {c : Cfg} {w : WSt σ} (hi : Inv c w) (h0 : 0 < w.compresse
 def closeSt (w : WSt σ) : WSt σ :=
   { w with e := { sl5 w.e with out := [] }, body := (sl5 w.e).out.foldl (fun a x => a.push x.toUInt8) w.body }
 
-def ClosePost (c : Cfg) (w : WSt σ) : Except Err (WSt σ) → Prop
-  | .ok w1 => ∃ w', Inv c w' ∧ Frame w w' ByteArray.empty ∧ 0 < w'.compressed ∧ w1 = closeSt w' ∧
+def ClosePost (c : Cfg) (I : σ → ByteArray → ByteArray → Prop) (w : WSt σ) : Except Err (WSt σ) → Prop
+  | .ok w1 => ∃ w', InvI c I w' ∧ Frame w w' ByteArray.empty ∧ 0 < w'.compressed ∧ w1 = closeSt w' ∧
       w'.body.size + w'.e.digits + 9 ≤ Gen.lzma_maxCompressed ∧
       (Gen.lzma_maxCompressed < w'.digits + 4 + Gen.lzma_opLenMargin ∨ w'.look.size = 0)
   | .error e => e = .limit ∧ ¬ 25 ≤ Gen.lzma_opLenMargin
 
-theorem fin_spec (c : Cfg) (w w' : WSt σ) (hi : Inv c w') (hf : Frame w w' ByteArray.empty) (hpos : 0 < w'.compressed)
+theorem fin_spec (c : Cfg) (I : σ → ByteArray → ByteArray → Prop) (w w' : WSt σ) (hi : InvI c I w') (hf : Frame w w' ByteArray.empty) (hpos : 0 < w'.compressed)
     (hwhy : Gen.lzma_maxCompressed < w'.digits + 4 + Gen.lzma_opLenMargin ∨ w'.look.size = 0) :
-    ClosePost c w
+    ClosePost c I w
       (match closeChk w'.body.size 5 w'.e with
        | none => .error .limit
        | some e' => .ok { w' with e := (flushOut e' w'.body).1, body := (flushOut e' w'.body).2 }) := by
@@ -89,9 +89,10 @@ theorem fin_spec (c : Cfg) (w w' : WSt σ) (hi : Inv c w') (hf : Frame w w' Byte
     obtain ⟨rfl, hb⟩ := closeChk_some _ _ _ hi.erest.toInv hcl
     exact ⟨w', hi, hf, hpos, rfl, hb, hwhy⟩
 
-theorem encClose_spec (c : Cfg) (hc : CfgOk' c) (M : Matcher σ) (hM : MatcherOk' c M) (w : WSt σ)
-    (hi : Inv c w) (hw : 0 < w.written) : ClosePost c w (encClose c M w) := by
-  have hcs := compress_spec c hc M hM true (w.look.size + 1) w hi (by omega)
+theorem encClose_spec (c : Cfg) (hc : CfgOk' c) (M : Matcher σ) (I : σ → ByteArray → ByteArray → Prop)
+    (hI : MatcherInv' c M I) (w : WSt σ)
+    (hi : InvI c I w) (hw : 0 < w.written) : ClosePost c I w (encClose c M w) := by
+  have hcs := compress_spec c hc M I hI true (w.look.size + 1) w hi (by omega)
   unfold encClose
   simp only []
   cases hr : compress c M true (w.look.size + 1) w with
@@ -105,16 +106,16 @@ theorem encClose_spec (c : Cfg) (hc : CfgOk' c) (M : Matcher σ) (hM : MatcherOk
       rw [ByteArray.size_empty] at hwr
       unfold WSt.written at hwr hw
       omega
-    exact fin_spec c w w' a1 a2 hpos (Or.inr (by unfold thr at a3; simp only [if_true] at a3; omega))
+    exact fin_spec c I w w' a1 a2 hpos (Or.inr (by unfold thr at a3; simp only [if_true] at a3; omega))
   | limit w' =>
     rw [hr] at hcs
     obtain ⟨a1, a2, a3, a4⟩ := hcs
     have hpos : 0 < w'.compressed := by
       by_contra h0
-      have := (a1.fresh (by omega)).2
+      have := (a1.toInv.fresh (by omega)).2
       have := margin_small
       omega
-    exact fin_spec c w w' a1 a2 hpos (Or.inl a3)
+    exact fin_spec c I w w' a1 a2 hpos (Or.inl a3)
   | broken w' => rw [hr] at hcs; exact ⟨rfl, hcs⟩
   | bad w' s => rw [hr] at hcs; exact absurd hcs id
 
@@ -472,8 +473,8 @@ theorem lz_step (c : Cfg) (hc : CfgOk' c) (w' w3 : WSt σ) (hi : Inv c w') (q q'
 
 /-! ### `flushChunk` -/
 
-def FlushPost (c : Cfg) (w : WSt σ) : Except Err (WSt σ) → Prop
-  | .ok w'' => Inv c w'' ∧ w''.hist ++ w''.look = w.hist ++ w.look ∧ w''.written ≤ w.written ∧
+def FlushPost (c : Cfg) (I : σ → ByteArray → ByteArray → Prop) (w : WSt σ) : Except Err (WSt σ) → Prop
+  | .ok w'' => InvI c I w'' ∧ w''.hist ++ w''.look = w.hist ++ w.look ∧ w''.written ≤ w.written ∧
       (0 < w.written → w''.written < w.written)
   | .error e => e = .limit ∧ ¬ 25 ≤ Gen.lzma_opLenMargin
 
@@ -483,10 +484,11 @@ theorem Inv.start_zero {c : Cfg} {w : WSt σ} (hi : Inv c w) (h : w.chunks = #[]
   rw [← hi.eh, hE] at this
   exact this.symm
 
-theorem post_of (c : Cfg) (w w' w3 : WSt σ) (hf : Frame w w' ByteArray.empty) (hs : w.start ≤ w.hist.size)
-    (hpos : 0 < w'.compressed) (hi3 : Inv c w3)
+theorem post_of (c : Cfg) (I : σ → ByteArray → ByteArray → Prop) (w w' w3 : WSt σ)
+    (hf : Frame w w' ByteArray.empty) (hs : w.start ≤ w.hist.size)
+    (hpos : 0 < w'.compressed) (hi3 : Inv c w3) (hsync : I w'.m w'.hist w'.look) (hm : w3.m = w'.m)
     (hhist : w3.hist = w'.hist) (hlook : w3.look = w'.look) (hstart : w3.start = w'.hist.size) :
-    FlushPost c w (.ok w3) := by
+    FlushPost c I w (.ok w3) := by
   have hwr := hf.written hs
   rw [ByteArray.size_empty] at hwr
   have hd := hf.data
@@ -495,15 +497,16 @@ theorem post_of (c : Cfg) (w w' w3 : WSt σ) (hf : Frame w w' ByteArray.empty) (
     unfold WSt.written WSt.compressed at *
     rw [hhist, hlook, hstart]
     omega
-  exact ⟨hi3, by rw [hhist, hlook, hd], by omega, fun _ => by omega⟩
+  exact ⟨⟨hi3, by rw [hm, hhist, hlook]; exact hsync⟩, by rw [hhist, hlook, hd], by omega, fun _ => by omega⟩
 
-theorem flushChunk_spec (c : Cfg) (hc : CfgOk' c) (M : Matcher σ) (hM : MatcherOk' c M) (w : WSt σ)
-    (hi : Inv c w) : FlushPost c w (flushChunk c M w) := by
+theorem flushChunk_spec (c : Cfg) (hc : CfgOk' c) (M : Matcher σ) (I : σ → ByteArray → ByteArray → Prop)
+    (hI : MatcherInv' c M I) (w : WSt σ)
+    (hi : InvI c I w) : FlushPost c I w (flushChunk c M w) := by
   by_cases hw : w.written = 0
   · unfold flushChunk
     rw [if_pos hw]
     exact ⟨hi, rfl, Nat.le_refl _, fun h => by omega⟩
-  · have hcl := encClose_spec c hc M hM w hi (by omega)
+  · have hcl := encClose_spec c hc M I hI w hi (by omega)
     cases h1 : encClose c M w with
     | error e =>
       rw [h1] at hcl
@@ -512,7 +515,8 @@ theorem flushChunk_spec (c : Cfg) (hc : CfgOk' c) (M : Matcher σ) (hM : Matcher
       exact hcl
     | ok w1 =>
       rw [h1] at hcl
-      obtain ⟨w', hi', hf, hpos, rfl, hb, _⟩ := hcl
+      obtain ⟨w', hi'I, hf, hpos, rfl, hb, _⟩ := hcl
+      have hi' := hi'I.toInv
       obtain ⟨q, hq, hst⟩ := hi'.cks
       have hct := hi'.ctype
       have hsz := closeSt_body_size w' hi'.erest.toInv hi'.eout
@@ -534,12 +538,12 @@ theorem flushChunk_spec (c : Cfg) (hc : CfgOk' c) (M : Matcher σ) (hM : Matcher
             have : (closeSt w').compressed = w'.compressed := rfl
             omega
           rw [flushChunk_eq c M w _ _ 82 hw h1 h2 (by show Model.chunkNext w'.cstate (Model.demote 6) = some 82; rw [hcs]; rfl)]
-          refine post_of c w w' _ hf hi.start hpos ?_ rfl rfl rfl
+          refine post_of c I w w' _ hf hi.start hpos ?_ hi'I.sync rfl rfl rfl rfl
           exact raw_step c w' _ hi' _ (.run false true) hq .ud (Or.inl rfl) (fun _ => hch0) rfl hpos hle
             rfl rfl rfl rfl rfl rfl rfl rfl rfl rfl rfl rfl rfl (Or.inl ⟨rfl, rfl, hS0, hT0⟩)
         · have h2 := writeChunk_lz' c (closeSt w') 6 hct' hpos1 hcond
           rw [flushChunk_eq c M w _ _ 76 hw h1 h2 (by show Model.chunkNext w'.cstate w'.ctype = some 76; rw [hct, hcs]; rfl)]
-          refine post_of c w w' _ hf hi.start hpos ?_ rfl rfl rfl
+          refine post_of c I w w' _ hf hi.start hpos ?_ hi'I.sync rfl rfl rfl rfl
           have hH : lzH (EE c w') .lrnd = H0 c w' := by
             unfold lzH
             rw [if_pos rfl, hi'.eh]
@@ -562,12 +566,12 @@ theorem flushChunk_spec (c : Cfg) (hc : CfgOk' c) (M : Matcher σ) (hM : Matcher
             have : (closeSt w').compressed = w'.compressed := rfl
             omega
           rw [flushChunk_eq c M w _ _ 82 hw h1 h2 (by show Model.chunkNext w'.cstate (Model.demote 5) = some 82; rw [hcs]; rfl)]
-          refine post_of c w w' _ hf hi.start hpos ?_ rfl rfl rfl
+          refine post_of c I w w' _ hf hi.start hpos ?_ hi'I.sync rfl rfl rfl rfl
           exact raw_step c w' _ hi' _ (.run false true) hq .u (Or.inr rfl) (fun h => by cases h) rfl hpos hle
             rfl rfl rfl rfl rfl rfl rfl rfl rfl rfl rfl rfl rfl (Or.inl ⟨rfl, rfl, hS0, hT0⟩)
         · have h2 := writeChunk_lz' c (closeSt w') 5 hct' hpos1 hcond
           rw [flushChunk_eq c M w _ _ 76 hw h1 h2 (by show Model.chunkNext w'.cstate w'.ctype = some 76; rw [hct, hcs]; rfl)]
-          refine post_of c w w' _ hf hi.start hpos ?_ rfl rfl rfl
+          refine post_of c I w w' _ hf hi.start hpos ?_ hi'I.sync rfl rfl rfl rfl
           have hH : lzH (EE c w') .lrn = H0 c w' := by
             unfold lzH
             rw [if_neg (by simp), hi'.eh]
@@ -588,12 +592,12 @@ theorem flushChunk_spec (c : Cfg) (hc : CfgOk' c) (M : Matcher σ) (hM : Matcher
               have : (closeSt w').compressed = w'.compressed := rfl
               omega
             rw [flushChunk_eq c M w _ _ 85 hw h1 h2 (by show Model.chunkNext w'.cstate (Model.demote 3) = some 85; rw [hcs]; rfl)]
-            refine post_of c w w' _ hf hi.start hpos ?_ rfl rfl rfl
+            refine post_of c I w w' _ hf hi.start hpos ?_ hi'I.sync rfl rfl rfl rfl
             exact raw_step c w' _ hi' _ (.run false false) hq .u (Or.inr rfl) (fun h => by cases h) rfl hpos hle
               rfl rfl rfl rfl rfl rfl rfl rfl rfl rfl rfl rfl rfl (Or.inr ⟨rfl, rfl, hS0, hT0, hP0⟩)
           · have h2 := writeChunk_lz' c (closeSt w') 3 hct' hpos1 hcond
             rw [flushChunk_eq c M w _ _ 76 hw h1 h2 (by show Model.chunkNext w'.cstate w'.ctype = some 76; rw [hct, hcs]; rfl)]
-            refine post_of c w w' _ hf hi.start hpos ?_ rfl rfl rfl
+            refine post_of c I w w' _ hf hi.start hpos ?_ hi'I.sync rfl rfl rfl rfl
             have hH : lzH (EE c w') .l = H0 c w' := by
               unfold lzH
               rw [if_neg (by simp), hi'.eh]
@@ -620,12 +624,12 @@ theorem flushChunk_spec (c : Cfg) (hc : CfgOk' c) (M : Matcher σ) (hM : Matcher
               have : (closeSt w').compressed = w'.compressed := rfl
               omega
             rw [flushChunk_eq c M w _ _ 85 hw h1 h2 (by show Model.chunkNext w'.cstate (Model.demote 3) = some 85; rw [hcs]; rfl)]
-            refine post_of c w w' _ hf hi.start hpos ?_ rfl rfl rfl
+            refine post_of c I w w' _ hf hi.start hpos ?_ hi'I.sync rfl rfl rfl rfl
             exact raw_step c w' _ hi' _ (.run false false) hq .u (Or.inr rfl) (fun h => by cases h) rfl hpos hle
               rfl rfl rfl rfl rfl rfl rfl rfl rfl rfl rfl rfl rfl (Or.inr ⟨rfl, rfl, hS0, hT0, hP0⟩)
           · have h2 := writeChunk_lz' c (closeSt w') 3 hct' hpos1 hcond
             rw [flushChunk_eq c M w _ _ 76 hw h1 h2 (by show Model.chunkNext w'.cstate w'.ctype = some 76; rw [hct, hcs]; rfl)]
-            refine post_of c w w' _ hf hi.start hpos ?_ rfl rfl rfl
+            refine post_of c I w w' _ hf hi.start hpos ?_ hi'I.sync rfl rfl rfl rfl
             have hH : lzH (EE c w') .l = H0 c w' := by
               unfold lzH
               rw [if_neg (by simp), hi'.eh]
